@@ -9,6 +9,7 @@ mod oracle;
 mod scenarios;
 mod specgen;
 mod t_exit;
+mod t_fsm;
 mod t_stream;
 mod t_views;
 mod trials;
